@@ -68,6 +68,14 @@ class _Canon(ast.NodeTransformer):
         return ast.arg(arg=self.names.get(node.arg, node.arg), annotation=None)
 
     # --- expressions ---------------------------------------------------------
+    def visit_Call(self, node: ast.Call):
+        node = self.generic_visit(node)
+        if node.keywords and all(k.arg is not None for k in node.keywords) and all(
+                all(isinstance(x, (ast.Name, ast.Attribute, ast.Subscript, ast.Constant, ast.Load, ast.Tuple, ast.List, ast.UnaryOp, ast.USub)) for x in ast.walk(k.value)) for k in node.keywords):
+            # keyword arguments that are plain loads can be written in any order
+            node.keywords = sorted(node.keywords, key=lambda k: k.arg)
+        return node
+
     def visit_UnaryOp(self, node: ast.UnaryOp):
         node = self.generic_visit(node)
         if isinstance(node.op, ast.Not) and isinstance(node.operand, ast.Compare) and len(node.operand.ops) == 1 and type(node.operand.ops[0]) in NEG:
